@@ -56,6 +56,10 @@ mod engine {
         /// consumption on the Bytes side: freeze the whole buffer, read it, clear()/truncate(0)/advance(len)
         /// the Bytes, convert it back (the handle is alone on its buffer all the time)
         BytesClear,
+        /// `Buf::copy_to_bytes(k)` hands the consumed part out as a Bytes
+        CopyToBytes,
+        /// `let tail = buf.split_off(k); part = mem::replace(&mut buf, tail)`
+        SplitOffSwap,
     }
     #[derive(Clone, Copy, PartialEq, Eq, Debug)]
     enum Rt {
@@ -85,6 +89,8 @@ mod engine {
                 Cons::Advance => "advance",
                 Cons::Truncate => "truncate",
                 Cons::BytesClear => "bytes_clear",
+                Cons::CopyToBytes => "copy_to_bytes",
+                Cons::SplitOffSwap => "split_off_swap",
             }
         }
         fn rt_s(&self) -> &'static str {
@@ -125,11 +131,14 @@ mod engine {
     /// The whole grid in a fixed order; the position is the pattern index.
     fn grid() -> Vec<Pattern> {
         let mut g = Vec::new();
-        for cons in [Cons::Split, Cons::SplitTo, Cons::Advance, Cons::Truncate, Cons::BytesClear] {
-            let has_part = matches!(cons, Cons::Split | Cons::SplitTo);
+        for cons in [Cons::Split, Cons::SplitTo, Cons::Advance, Cons::Truncate, Cons::BytesClear, Cons::CopyToBytes, Cons::SplitOffSwap] {
+            let has_part = matches!(cons, Cons::Split | Cons::SplitTo | Cons::CopyToBytes | Cons::SplitOffSwap);
             for freeze in [false, true] {
                 if freeze && !has_part {
                     continue; // nothing to freeze: the data is read in place
+                }
+                if !freeze && cons == Cons::CopyToBytes {
+                    continue; // the part already is a Bytes
                 }
                 for rt in [Rt::None, Rt::TryIntoMut, Rt::From] {
                     for unsplit in [false, true] {
@@ -302,6 +311,15 @@ mod engine {
             let part = match p.cons {
                 Cons::Split => Some(buf.split()),
                 Cons::SplitTo => Some(buf.split_to(k)),
+                Cons::CopyToBytes => {
+                    let b = buf.copy_to_bytes(k);
+                    fifo.push_back(Part::B(b));
+                    None
+                }
+                Cons::SplitOffSwap => {
+                    let tail = buf.split_off(k);
+                    Some(std::mem::replace(&mut buf, tail))
+                }
                 Cons::Advance => {
                     std::hint::black_box(&buf[..k]);
                     buf.advance(k);
